@@ -342,6 +342,17 @@ fn a_to_json(rng: &mut Rng, a: &AFilter) -> Vec<(String, Value)> {
     kv
 }
 
+/// the same with the optional `ignoreCasePayload` member forced: Some(b) = written with value b, None = left out
+fn a_to_json_ic(rng: &mut Rng, a: &AFilter, ic_member: Option<bool>) -> Vec<(String, Value)> {
+    let mut kv = a_to_json(rng, a);
+    kv.retain(|(k, _)| k != "ignoreCasePayload");
+    if let Some(b) = ic_member {
+        let at = rng.below(kv.len() as u64 + 1) as usize;
+        kv.insert(at, ("ignoreCasePayload".into(), json!(b)));
+    }
+    kv
+}
+
 fn xml_safe(s: &str) -> bool {
     !s.is_empty() && s.chars().all(|c| (c >= ' ' || c == '\t' || c == '\n') && c != '\u{7f}')
 }
@@ -650,6 +661,8 @@ struct Loaded {
     dec: Decisions,
     json: String,
     reloaded: Option<(Filter, Decisions)>,
+    /// the reloaded filter serialised and loaded once more (None: there was no reloaded filter; Some(None): its JSON does not load)
+    again: Option<Option<Decisions>>,
 }
 
 fn id_printable(c: &Option<Char4OrRegex>) -> bool {
@@ -798,7 +811,8 @@ fn record_multi(sink: &mut Sink, ctx: &mut Ctx, fe: FeIn, a: Option<AFilter>, al
                                 let d = decide(&g, &real2, &rs2);
                                 (g, d)
                             });
-                            Loaded { filter: f, dec, json, reloaded }
+                            let again = reloaded.as_ref().map(|(g, _)| Filter::from_json(&g.to_json()).ok().map(|h| decide(&h, &real2, &rs2)));
+                            Loaded { filter: f, dec, json, reloaded, again }
                         })
                         .collect()
                 })
@@ -1071,6 +1085,16 @@ fn record_multi(sink: &mut Sink, ctx: &mut Ctx, fe: FeIn, a: Option<AFilter>, al
                     }
                 }
             }
+            // ... and so does the reloaded filter when it is serialised and loaded once more
+            match &l.again {
+                Some(None) => set_fail(fail("json_roundtrip", format!("to_json output of the filter reloaded from {} does not load", l.json)), &mut verdict),
+                Some(Some(d)) => {
+                    if d.msgs != l.dec.msgs || d.sweep != l.dec.sweep {
+                        set_fail(fail("json_roundtrip", format!("second to_json/from_json cycle decides differently (first json {})", l.json)), &mut verdict);
+                    }
+                }
+                None => {}
+            }
         }
     }
 
@@ -1104,6 +1128,12 @@ fn record_multi(sink: &mut Sink, ctx: &mut Ctx, fe: FeIn, a: Option<AFilter>, al
         }
         if let Some(p) = &a.payload {
             tags.push(format!("payload_{}{}", if p.regex { "regex" } else { "literal" }, if p.ic { "_ic" } else { "" }));
+            if p.regex && has_inline_flags(&p.s) {
+                tags.push(format!("payload_regex_inline_flag{}_{}", if p.ic { "_ic" } else { "" }, fe_name));
+            }
+        }
+        if [&a.ecu, &a.apid, &a.ctid].into_iter().flatten().any(|c| c.regex && has_inline_flags(&c.s)) {
+            tags.push(format!("id_regex_inline_flag_{}", fe_name));
         }
     } else {
         tags.push("raw".into());
@@ -1145,7 +1175,11 @@ fn record_multi(sink: &mut Sink, ctx: &mut Ctx, fe: FeIn, a: Option<AFilter>, al
 
 // ------------------------------------------------------------------------------------------ generators
 const LIT_IDS: &[&str] = &["ECU1", "ECU2", "EC", "E", "ABCDE", "APID", "AP", "APIDX", "CTID", "CT", "TC", "A B", "ecu1", "", "XY", "ECU", "A.B", "C+", "A.B", "AB ", " AB", "A  ", " ", " A ", "A&B", "<A>"];
-const RE_IDS: &[&str] = &["ECU1|ECU2", "^EC", "E.U", "AP|CT", "[AC]", "\\x00$", "(?i)ecu1", "^.{2}\\x00", "^ECU\\d$", "A.*D", "CT$", "^(AP|TC)", "X+", "D$", "^AB $", "^ ", "A&B|<A>"];
+const RE_IDS: &[&str] = &[
+    "ECU1|ECU2", "^EC", "E.U", "AP|CT", "[AC]", "\\x00$", "(?i)ecu1", "^.{2}\\x00", "^ECU\\d$", "A.*D", "CT$", "^(AP|TC)", "X+", "D$", "^AB $", "^ ", "A&B|<A>",
+    // patterns that carry their own inline flag groups
+    "(?i)ap", "(?i:ct)id", "^(?i)tc", "(?i)^apid$", "(?s)^.CU1", "(?-i)ecu1", "ap(?i)id", "(?i)(?i)xy",
+];
 /// regular expressions without any of the auto-detection characters (only reachable with an explicit IsRegex)
 const RE_PLAIN_IDS: [&str; 4] = ["APID", "EC", "C", "T"];
 const MSG_IDS: &[&[u8; 4]] = &[
@@ -1153,12 +1187,52 @@ const MSG_IDS: &[&[u8; 4]] = &[
     b"ECU\0", b"\xff\x01- ", b"APIX", b"A.B\0", b"AxB\0", b"C+\0\0", b"CC\0\0",
     b"AB \0", b"AB\0\0", b" AB\0", b"A  \0", b"A\0\0\0", b" \0\0\0", b" A \0", b"A \0\0", b"A&B\0", b"<A>\0",
 ];
-const LIT_PAYLOADS: &[&str] = &["foo", "Foo", "FOO bar", "o", "", "stra\u{df}e", "a.b", "k", "(?i)", "bar", "12", "F", "error ", " error", " ", "  ", "a\tb", "\tx", "line\n", " \n", "a & b", "a &amp; b", "x < y", "<tag>", "\"q\" 'r'", "]]>", "<![CDATA[x]]>", " two  blanks "];
-const RE_PAYLOADS: &[&str] = &["^foo", "fo+", "foo.*bar", "(?<n>\\d+)", "(?!x)foo", "\\d{2,}", "Foo", "^$", "(?i)x", "bar$", "a.b", "[fF]oo (?=b)", "^state ", "error $", " end$", "^ ", "\\t", " +x", "a &amp; b", "<b>|\"q\"", "^\\s+$", "a  b"];
+const LIT_PAYLOADS: &[&str] = &["foo", "Foo", "FOO bar", "o", "", "stra\u{df}e", "a.b", "k", "(?i)", "bar", "12", "F", "error ", " error", " ", "  ", "a\tb", "\tx", "line\n", " \n", "a & b", "a &amp; b", "x < y", "<tag>", "\"q\" 'r'", "]]>", "<![CDATA[x]]>", " two  blanks ", "(?i)foo", "(?i:x)", "(?s)"];
+const RE_PAYLOADS: &[&str] = &["^foo", "fo+", "foo.*bar", "(?<n>\\d+)", "(?!x)foo", "\\d{2,}", "Foo", "^$", "(?i)x", "bar$", "a.b", "[fF]oo (?=b)", "^state ", "error $", " end$", "^ ", "\\t", " +x", "a &amp; b", "<b>|\"q\"", "^\\s+$", "a  b",
+    // patterns that carry their own inline flag groups (whatever ignoreCasePayload says)
+    "(?i)error", "(?i:foo) bar", "^(?i)state", "(?i)^foo", "(?s)a.b", "(?is)^a.b$", "(?i)(?i)x", "foo(?i) bar", "(?-i)Foo", "(?m)^bar$", "(?i)", "((?i)fo)o",
+];
 const TEXTS: &[&str] = &[
     "foo", "Foo", "FOO BAR", "a foo bar", "xfoo 12", "", "stra\u{df}e", "STRASSE", "a.b", "aXb", "\u{212a}elvin", "kelvin", "(?i)x", "foo bar", "FOO", "x 7 y",
     "error", "errors: none", "error code", "state 1", "statement", " ", "a\tb", "a b", "a & b", "a &amp; b", "x < y", "<tag>", "the end", "\"q\" 'r'", "]]>",
 ];
+
+/// pattern bodies for the inline-flag family (payload / ids); mixed case so that every case variant is a different text
+const FLAG_BODIES: &[&str] = &["error", "Foo", "state 1", "a.b", "warn", "Kelvin", "bar$", "fo+ b", "x < y", "the end", "STRASSE", "code 12"];
+const FLAG_ID_BODIES: &[&str] = &["ecu1", "ap", "CT", "apid", "Ab", "tc", "E.U1", "xy", "ECU", "ctid"];
+const N_FLAG_FORMS: u64 = 16;
+/// the ways an inline flag group can be attached to a pattern body
+fn flagged(form: u64, body: &str) -> String {
+    let splittable = body.len() >= 2 && body.chars().all(|c| c.is_ascii_alphanumeric() || c == ' ');
+    let (head, tail) = body.split_at(if splittable { body.len() / 2 } else { 0 });
+    match form {
+        0 => format!("(?i){}", body),
+        1 => format!("(?i:{})", body),
+        2 => format!("^(?i){}", body),
+        3 => format!("(?i)^{}", body),
+        4 => format!("(?s){}", body),
+        5 => format!("(?is){}", body),
+        6 => format!("(?i)(?i){}", body),
+        7 if splittable => format!("{}(?i){}", head, tail),
+        8 if splittable => format!("(?i:{}){}", head, tail),
+        9 => format!("(?-i){}", body),
+        10 => format!("(?m)^{}", body),
+        11 => format!("(?i)(?s){}", body),
+        12 => format!("(?s)(?i){}", body),
+        13 => format!("((?i){})", body),
+        14 => format!("(?i)(?-i){}", body),
+        15 => format!(" (?i){}", body),
+        _ => format!("(?i){}", body),
+    }
+}
+fn flag_form_name(form: u64) -> &'static str {
+    match form {
+        0 | 3 | 6 | 11 | 14 => "flag_ci_at_start",
+        1 | 8 | 13 => "flag_ci_scoped",
+        2 | 7 | 12 | 15 => "flag_ci_inside",
+        _ => "flag_other",
+    }
+}
 
 fn gen_aid(rng: &mut Rng) -> AId {
     match rng.below(10) {
@@ -1392,15 +1466,79 @@ fn satisfying_msg(rng: &mut Rng, eng: &mut Engines, a: &AFilter) -> Msg {
     Msg { ecu, ext: Some((vmm, apid, ctid)), text: Some(text), raw: None, lc }
 }
 
-/// the text a criterion is about: the literal itself; for a pattern its literal skeleton (anchors and escapes removed)
+/// a pattern without its inline flag groups: "(?flags)" anywhere, and the opener of "(?flags:...)" together with its
+/// closing parenthesis (escaped characters are kept as they are)
+fn strip_inline_flags(s: &str) -> String {
+    let b: Vec<char> = s.chars().collect();
+    let mut out = String::new();
+    let mut i = 0;
+    let mut drop_close = 0;
+    while i < b.len() {
+        if b[i] == '\\' && i + 1 < b.len() {
+            out.push(b[i]);
+            out.push(b[i + 1]);
+            i += 2;
+            continue;
+        }
+        if b[i] == '(' && i + 1 < b.len() && b[i + 1] == '?' {
+            let mut j = i + 2;
+            while j < b.len() && (b[j].is_ascii_alphabetic() || b[j] == '-') {
+                j += 1;
+            }
+            if j > i + 2 && j < b.len() && b[j] == ')' {
+                i = j + 1;
+                continue;
+            }
+            if j > i + 2 && j < b.len() && b[j] == ':' {
+                i = j + 1;
+                drop_close += 1;
+                continue;
+            }
+        }
+        if b[i] == ')' && drop_close > 0 {
+            drop_close -= 1;
+            i += 1;
+            continue;
+        }
+        out.push(b[i]);
+        i += 1;
+    }
+    out
+}
+fn has_inline_flags(s: &str) -> bool {
+    strip_inline_flags(s) != s
+}
+/// the text a criterion is about: the literal itself; for a pattern its literal skeleton (inline flag groups,
+/// anchors and escapes removed)
 fn criterion_seed(s: &str, regex: bool) -> String {
     if !regex {
         return s.to_string();
     }
-    let t = s.strip_prefix("(?i)").unwrap_or(s);
+    let t = strip_inline_flags(s);
+    // plain groups left over (no alternation, no look-around): their parentheses are not part of the text
+    let t = if !t.contains("(?") && !t.contains('|') { t.replace(['(', ')'], "") } else { t };
+    let t = t.as_str();
     let t = t.strip_prefix('^').unwrap_or(t);
     let t = t.strip_suffix('$').unwrap_or(t);
     t.replace("\\t", "\t").replace("\\s", " ").replace('\\', "")
+}
+/// the same text in other letter cases: all flipped, upper, lower, only the first / only the last letter flipped
+fn case_variants(seed: &str) -> Vec<String> {
+    let mut v = vec![flip_case(seed), seed.to_ascii_uppercase(), seed.to_ascii_lowercase()];
+    let chars: Vec<char> = seed.chars().collect();
+    if let Some(i) = chars.iter().position(|c| c.is_ascii_alphabetic()) {
+        let mut c2 = chars.clone();
+        c2[i] = flip_case(&c2[i].to_string()).chars().next().unwrap();
+        v.push(c2.iter().collect());
+    }
+    if let Some(i) = chars.iter().rposition(|c| c.is_ascii_alphabetic()) {
+        let mut c2 = chars.clone();
+        c2[i] = flip_case(&c2[i].to_string()).chars().next().unwrap();
+        v.push(c2.iter().collect());
+    }
+    let mut seen = BTreeSet::new();
+    seen.insert(seed.to_string());
+    v.into_iter().filter(|x| seen.insert(x.clone())).collect()
 }
 fn flip_case(s: &str) -> String {
     s.chars().map(|c| if c.is_ascii_lowercase() { c.to_ascii_uppercase() } else { c.to_ascii_lowercase() }).collect()
@@ -1436,12 +1574,24 @@ fn universe(rng: &mut Rng, eng: &mut Engines, a: &AFilter, n_random: u64) -> (Ve
     let mut ms = vec![base.clone()];
     // probes derived from the textual criteria themselves
     if let Some(p) = &a.payload {
-        let mut vs = near_variants(&criterion_seed(&p.s, p.regex));
+        let seed = criterion_seed(&p.s, p.regex);
+        // the criterion's text in other letter cases is always probed (case-insensitivity may come from the option or
+        // from the pattern itself; a loader or serialiser that adds or loses it decides differently on these)
+        let mut cases = case_variants(&seed);
+        if let Some(c) = cases.first().cloned() {
+            cases.push(format!("pre {} post", c));
+        }
+        while cases.len() > 4 {
+            let k = 1 + rng.below(cases.len() as u64 - 1) as usize;
+            cases.remove(k);
+        }
+        let mut vs: Vec<String> = near_variants(&seed).into_iter().filter(|t| !cases.contains(t)).collect();
         // keep the universe small: the structural variants first, a random subset of the rest
-        while vs.len() > 12 {
+        while vs.len() > 10 {
             let k = 4 + rng.below(vs.len() as u64 - 4) as usize;
             vs.remove(k);
         }
+        vs.extend(cases);
         for t in vs {
             let mut m = base.clone();
             m.text = Some(t);
@@ -1496,17 +1646,30 @@ fn universe(rng: &mut Rng, eng: &mut Engines, a: &AFilter, n_random: u64) -> (Ve
     }
     for (which, c) in [&a.ecu, &a.apid, &a.ctid].into_iter().enumerate() {
         if let Some(c) = c {
+            let seed = criterion_seed(&c.s, c.regex);
+            // the id in other letter cases is always probed
+            let mut cases: Vec<[u8; 4]> = vec![];
+            for t in case_variants(&seed) {
+                if t.is_ascii() && !cases.contains(&pad4(t.as_bytes())) && pad4(t.as_bytes()) != pad4(seed.as_bytes()) {
+                    cases.push(pad4(t.as_bytes()));
+                }
+            }
+            while cases.len() > 2 {
+                let k = 1 + rng.below(cases.len() as u64 - 1) as usize;
+                cases.remove(k);
+            }
             let mut ids: BTreeSet<[u8; 4]> = BTreeSet::new();
-            for t in near_variants(&criterion_seed(&c.s, c.regex)) {
-                if t.is_ascii() {
+            for t in near_variants(&seed) {
+                if t.is_ascii() && !cases.contains(&pad4(t.as_bytes())) {
                     ids.insert(pad4(t.as_bytes()));
                 }
             }
             let mut ids: Vec<[u8; 4]> = ids.into_iter().collect();
-            while ids.len() > 6 {
+            while ids.len() > 5 {
                 let k = rng.below(ids.len() as u64) as usize;
                 ids.remove(k);
             }
+            ids.extend(cases);
             for id in ids {
                 let mut m = base.clone();
                 match which {
@@ -1961,6 +2124,96 @@ fn main() {
                             record(&mut sink, &mut ctx, FeIn::Dlf(vec![d], false), Some(af), msgs, sweep, Some(group), &["exhaustive"]);
                         }
                     }
+                }
+            }
+        }
+    }
+
+    // regular expressions that carry their own inline flag groups ("(?i)..", "(?i:..)..", "^(?i)..", "(?s)..", ...):
+    // every way of attaching the group x the ignoreCasePayload option absent / false / true, through every front-end
+    // that can express the filter and through to_json -> from_json; the universes hold the criterion's text in
+    // other letter cases, so a loader / serialiser that adds or loses case-insensitivity decides differently
+    let flag_rounds = a.count.map(|c| (c / 20).max(1)).unwrap_or(if quick { 2 } else if a.tier == "search" { 3 } else { 16 });
+    let mut eac_flag_budget = if quick { 12 } else { 200 };
+    for round in 0..flag_rounds {
+        for form in 0..N_FLAG_FORMS {
+            // payload
+            for ic_state in 0..3u64 {
+                let mut pat = None;
+                for _ in 0..8 {
+                    let cand = flagged(form, *rng.pick(FLAG_BODIES));
+                    if ctx.eng.fancy(&cand).is_some() && ctx.eng.fancy(&format!("(?i){}", cand)).is_some() {
+                        pat = Some(cand);
+                        break;
+                    }
+                }
+                let Some(pat) = pat else { continue };
+                // alone, or together with other criteria
+                let mut af = gen_afilter(&mut rng, if (round + ic_state) % 3 == 0 { 1 } else { 0 }, 5);
+                af.kind = if rng.chance(1, 6) { 1 } else { 0 };
+                af.enabled = true;
+                af.negate = rng.chance(1, 3);
+                af.payload = Some(APayload { s: pat, regex: true, ic: ic_state == 2 });
+                let (msgs, base) = universe(&mut rng, &mut ctx.eng, &af, 2);
+                let sweep = if af.ty.is_some() || af.lmin.is_some() || af.lmax.is_some() { Some(base) } else { None };
+                group += 1;
+                let ic_member = match ic_state {
+                    0 => None,
+                    1 => Some(false),
+                    _ => Some(true),
+                };
+                let tag_ic = ["ic_member_absent", "ic_member_false", "ic_member_true"][ic_state as usize];
+                let tags = ["regex_flags", flag_form_name(form), tag_ic];
+                let kv = a_to_json_ic(&mut rng, &af, ic_member);
+                record(&mut sink, &mut ctx, FeIn::Json(kv), Some(af.clone()), msgs.clone(), sweep.clone(), Some(group), &tags);
+                if let Some(mut d) = a_to_dlf(&mut rng, &af) {
+                    d.retain(|(k, _)| k != "ignoreCase_Payload");
+                    if let Some(b) = ic_member {
+                        let at = rng.below(d.len() as u64 + 1) as usize;
+                        d.insert(at, ("ignoreCase_Payload".into(), if b { "1" } else { "0" }.into()));
+                    }
+                    record(&mut sink, &mut ctx, FeIn::Dlf(vec![d], rng.chance(1, 2)), Some(af.clone()), msgs.clone(), sweep.clone(), Some(group), &tags);
+                }
+                if ic_state != 1 && direct_filter(&af).is_some() && (thorough || (form + round + ic_state) % 2 == 0) {
+                    record(&mut sink, &mut ctx, FeIn::Direct(af.clone()), Some(af.clone()), msgs.clone(), sweep.clone(), Some(group), &tags);
+                }
+            }
+            // ids
+            let mut pat = None;
+            for _ in 0..8 {
+                let cand = flagged(form, *rng.pick(FLAG_ID_BODIES));
+                if ctx.eng.bytes(&cand).is_some() {
+                    pat = Some(cand);
+                    break;
+                }
+            }
+            let Some(pat) = pat else { continue };
+            let mut af = gen_afilter(&mut rng, 0, 1);
+            af.kind = 0;
+            af.enabled = true;
+            let which = (form + round) % 3;
+            let others = round % 2 == 1;
+            af.negate = others && rng.chance(1, 3);
+            let lit = |rng: &mut Rng| AId { s: rng.pick(&["APID", "AP", "CTID", "CT", "ECU1", "XY"]).to_string(), regex: false };
+            af.ecu = if which == 0 { Some(AId { s: pat.clone(), regex: true }) } else if others && rng.chance(1, 2) { Some(lit(&mut rng)) } else { None };
+            af.apid = if which == 1 { Some(AId { s: pat.clone(), regex: true }) } else if others && rng.chance(1, 2) { Some(lit(&mut rng)) } else { None };
+            af.ctid = if which == 2 { Some(AId { s: pat.clone(), regex: true }) } else if others && rng.chance(1, 2) { Some(lit(&mut rng)) } else { None };
+            let (msgs, _) = universe(&mut rng, &mut ctx.eng, &af, 2);
+            group += 1;
+            let tags = ["regex_flags", flag_form_name(form), "id_flags"];
+            let kv = a_to_json(&mut rng, &af);
+            record(&mut sink, &mut ctx, FeIn::Json(kv), Some(af.clone()), msgs.clone(), None, Some(group), &tags);
+            if let Some(d) = a_to_dlf(&mut rng, &af) {
+                record(&mut sink, &mut ctx, FeIn::Dlf(vec![d], rng.chance(1, 2)), Some(af.clone()), msgs.clone(), None, Some(group), &tags);
+            }
+            if direct_filter(&af).is_some() && (thorough || form % 2 == 1) {
+                record(&mut sink, &mut ctx, FeIn::Direct(af.clone()), Some(af.clone()), msgs.clone(), None, Some(group), &tags);
+            }
+            if have_cli && eac_flag_budget > 0 {
+                if let Some(e) = a_to_eac(&af) {
+                    eac_flag_budget -= 1;
+                    let cli_msgs: Vec<Msg> = msgs.iter().filter(|m| m.raw.is_none()).cloned().collect();
+                    record(&mut sink, &mut ctx, FeIn::Eac(e), Some(af.clone()), cli_msgs, None, None, &tags);
                 }
             }
         }
